@@ -1,47 +1,2 @@
-(* GENERATED by tools/gotrans arithC13 from the Go sources; do not edit.
-   One definition per listed Go function; Proofs/ArithTieC13.v proves each equal to the hand-written model. *)
-From Coq Require Import ZArith Bool.
-From Elys Require Import Base.Res Base.Zdec Base.ZdecChk.
-Open Scope Z_scope.
-
-(* x/amm/keeper PortionCoins, pure mode (range panics and division by zero are not modelled)
-   slice: callarg:github.com/cosmos/cosmos-sdk/types.NewCoin#1:1
-     portion : parameter portion
-     coin_Amount : element of coins .Amount *)
-Definition PortionCoins_amount (portion : Z) (coin_Amount : Z) : Z :=
-  (round_int (dmul (dec_of_int coin_Amount) portion)).
-
-(* x/masterchef/keeper (Keeper).UpdateAccPerShare, pure mode (range panics and division by zero are not modelled)
-   slice: callarg:(x/masterchef/keeper.Keeper).SetPoolRewardInfo#1:1.PoolAccRewardPerShare
-     poolId : parameter poolId
-     amount : parameter amount
-     GetPoolRewardInfo1_r0_PoolAccRewardPerShare : result of call 1 of (x/masterchef/keeper.Keeper).GetPoolRewardInfo .r0.PoolAccRewardPerShare
-     GetPoolRewardInfo1_r1 : result of call 1 of (x/masterchef/keeper.Keeper).GetPoolRewardInfo .r1
-     GetPoolTotalCommit1 : result of call 1 of (x/masterchef/keeper.Keeper).GetPoolTotalCommit *)
-Definition UpdateAccPerShare_acc (poolId : Z) (amount : Z) (GetPoolRewardInfo1_r0_PoolAccRewardPerShare : Z) (GetPoolRewardInfo1_r1 : bool) (GetPoolTotalCommit1 : Z) : Z :=
-  ((if (negb GetPoolRewardInfo1_r1) then (dec_of_int 0) else GetPoolRewardInfo1_r0_PoolAccRewardPerShare) + (dquo_int (dec_of_int (amount * 1000000000000000000)) GetPoolTotalCommit1)).
-
-(* x/masterchef/keeper (Keeper).UpdateUserRewardPending, pure mode (range panics and division by zero are not modelled)
-   slice: callarg:(x/masterchef/keeper.Keeper).SetUserRewardInfo#1:1.RewardPending
-     poolId : parameter poolId
-     isDeposit : parameter isDeposit
-     amount : parameter amount
-     GetPoolRewardInfo1_r0_PoolAccRewardPerShare : result of call 1 of (x/masterchef/keeper.Keeper).GetPoolRewardInfo .r0.PoolAccRewardPerShare
-     GetPoolRewardInfo1_r1 : result of call 1 of (x/masterchef/keeper.Keeper).GetPoolRewardInfo .r1
-     GetUserRewardInfo1_r0_RewardDebt : result of call 1 of (x/masterchef/keeper.Keeper).GetUserRewardInfo .r0.RewardDebt
-     GetUserRewardInfo1_r0_RewardPending : result of call 1 of (x/masterchef/keeper.Keeper).GetUserRewardInfo .r0.RewardPending
-     GetUserRewardInfo1_r1 : result of call 1 of (x/masterchef/keeper.Keeper).GetUserRewardInfo .r1
-     GetPoolBalance1 : result of call 1 of (x/masterchef/keeper.Keeper).GetPoolBalance *)
-Definition UpdateUserRewardPending_pending (poolId : Z) (isDeposit : bool) (amount : Z) (GetPoolRewardInfo1_r0_PoolAccRewardPerShare : Z) (GetPoolRewardInfo1_r1 : bool) (GetUserRewardInfo1_r0_RewardDebt : Z) (GetUserRewardInfo1_r0_RewardPending : Z) (GetUserRewardInfo1_r1 : bool) (GetPoolBalance1 : Z) : Z :=
-  ((if (negb GetUserRewardInfo1_r1) then (dec_of_int 0) else GetUserRewardInfo1_r0_RewardPending) + (dquo_int ((dmul_int (if GetPoolRewardInfo1_r1 then GetPoolRewardInfo1_r0_PoolAccRewardPerShare else (dec_of_int 0)) (if isDeposit then (GetPoolBalance1 - amount) else (GetPoolBalance1 + amount))) - (if (negb GetUserRewardInfo1_r1) then (dec_of_int 0) else GetUserRewardInfo1_r0_RewardDebt)) 1000000000000000000)).
-
-(* x/masterchef/keeper (Keeper).UpdateUserRewardDebt, pure mode (range panics and division by zero are not modelled)
-   slice: callarg:(x/masterchef/keeper.Keeper).SetUserRewardInfo#1:1.RewardDebt
-     poolId : parameter poolId
-     GetPoolRewardInfo1_r0_PoolAccRewardPerShare : result of call 1 of (x/masterchef/keeper.Keeper).GetPoolRewardInfo .r0.PoolAccRewardPerShare
-     GetPoolRewardInfo1_r1 : result of call 1 of (x/masterchef/keeper.Keeper).GetPoolRewardInfo .r1
-     GetUserRewardInfo1_r1 : result of call 1 of (x/masterchef/keeper.Keeper).GetUserRewardInfo .r1
-     GetPoolBalance1 : result of call 1 of (x/masterchef/keeper.Keeper).GetPoolBalance *)
-Definition UpdateUserRewardDebt_debt (poolId : Z) (GetPoolRewardInfo1_r0_PoolAccRewardPerShare : Z) (GetPoolRewardInfo1_r1 : bool) (GetUserRewardInfo1_r1 : bool) (GetPoolBalance1 : Z) : Z :=
-  (dmul (if GetPoolRewardInfo1_r1 then GetPoolRewardInfo1_r0_PoolAccRewardPerShare else (dec_of_int 0)) (dec_of_int GetPoolBalance1)).
-
+(* gotrans failed on the current tree *)
+Definition handlers := gotrans_failed_on_the_current_tree_see_log.
